@@ -96,6 +96,23 @@ def run(ctx):
     ok = "Handle.is_valid" in t and "one_or_none()" in t and any(isinstance(r, ast.Return) and src(r.value) == "row and row[0]" for r in ast.walk(ivh))
     r3.check(ok, f"{db.rel}:RedunBackendDb.is_valid_handle", "is_valid_handle is not `recorded row and its is_valid flag` (an unrecorded handle must be invalid)", db.rel, ivh.lineno)
 
+    r5 = ctx.rule("C04.5", "every expression kind that can be a cached result validates the values nested in it", floor=3)
+    em = repo.mod("redun/expression.py")
+    ebase = em.cls("Expression")
+    vbase_is_valid = vm.func("Value.is_valid")
+    for cm, c in repo.subclasses(ebase, strict=True):
+        hasinit = repo.resolve_method(cm, c, "_calc_hash")
+        if hasinit is None or any(isinstance(n, ast.Raise) for n in hasinit[2].body):
+            continue  # abstract
+        res = repo.resolve_method(cm, c, "is_valid")
+        fn = res[2] if res else None
+        payload = "self.value" if c.name == "ValueExpression" else "(self.args, self.kwargs)"
+        ok = False
+        if fn is not None and fn is not vbase_is_valid:
+            t = src(fn)
+            ok = ("iter_nested_value((self.args, self.kwargs))" in t and ".is_valid()" in t) or ("is_valid_nested(self.value)" in t)
+        r5.check(ok, f"{cm.rel}:{c.name}.is_valid", f"{c.name} does not validate the values nested in {payload} (it inherits Value.is_valid() == True): a cached result of this kind is replayed although a File/Handle inside it changed", cm.rel, c.lineno)
+
     r4 = ctx.rule("C04.4", "an invalid or missing cached result is reported as a miss (re-execution)", floor=1)
     ex = sm.func("Scheduler._exec_job_main_thread")
     c2 = CFG(ex)
